@@ -310,3 +310,14 @@ Theorem C13_finished_callbacks_prefix_when_one_raises : forall l sc, valid_level
     has_fault sc P_FIN_CB = true.
 Proof. exact fin_loop_raising. Qed.
 Print Assumptions C13_finished_callbacks_prefix_when_one_raises.
+
+(* pyramid.paster.bootstrap (outside the anchor files; skeleton regenerated on every run): leaves nothing behind when
+   get_app or prepare raise, exactly the request frame when it returns; `with bootstrap(..) as env:` is balanced (that
+   the returned object is prepare()'s AppEnvironment is the fail-closed fact bootstrap_returns_env) *)
+Theorem C13_bootstrap_balanced :
+  (forall s k s' tr, exec prog_bootstrap s k s' tr ->
+     (k = KExc -> s' = s) /\ (k <> KExc -> s' = tag_request_context :: s) /\
+     (forall st, In (mk_rootfactory, st) tr -> exists r, st = tag_request_context :: r)) /\
+  (forall s k s' tr, exec prog_bootstrap_with s k s' tr -> s' = s).
+Proof. exact bootstrap_balanced. Qed.
+Print Assumptions C13_bootstrap_balanced.
